@@ -214,8 +214,35 @@ def check_tr(case):
             if not np.allclose(np.power(w, 1.0 / case["weight_power"]), want, rtol=1e-7, atol=1e-9):
                 r.fail("weights-value", site + ".fit", "weights %s, from the KL definition %s" % (w.tolist()[:6], want.tolist()[:6]))
     else:
-        if not np.isfinite(w).all() or (w < 0).any():
-            r.label("nonfinite-weights-outside-claim")
+        # approximate / supervised variants: the per-column divergences are taken as given (module-level information_weight);
+        # what is checked is the documented composition: mean-normalise, clamp at zero, raise to the power, multiply
+        # same storage as the transformer's input: the approximate prior legitimately depends on the stored entries
+        Xs = store(L, D, "csc" if case["storage"] == "dense" else case["storage"])
+        with np.errstate(all="ignore"):
+            s0, w0 = call(L["iw"], Xs, case["prior_strength"], approx)
+            if s0 == "ok":
+                w0 = np.asarray(w0, dtype=np.float64)
+                if variant == "supervised":
+                    classes = np.unique(y)
+                    target = np.array([int(np.searchsorted(classes, v)) for v in y], dtype=np.int64)
+                    s1, w1 = call(L["iw"], Xs, case["prior_strength"], approx, target)
+                    sw = est.supervision_weight
+                    if s1 == "ok":
+                        w1 = np.asarray(w1, dtype=np.float64)
+                        want = np.power(np.maximum(w0 / w0.mean(), 0.0), (1.0 - sw) * case["weight_power"]) * \
+                            np.power(np.maximum(w1 / w1.mean(), 0.0), sw * case["weight_power"])
+                    else:
+                        want = None
+                else:
+                    want = np.power(np.maximum(w0 / w0.mean(), 0.0), case["weight_power"])
+            else:
+                want = None
+        if want is None or not np.isfinite(want).all():
+            r.label("degenerate-weights-outside-claim")     # zero mean divergence (the F27 situation for these variants)
+            return r
+        if not np.isfinite(w).all() or (w < 0).any() or not np.allclose(w, want, rtol=1e-7, atol=1e-12):
+            r.fail("weights-composition", site + ".fit", "weights %s, but mean-normalise / clamp / power of the column divergences gives %s"
+                   % (w.tolist()[:6], want.tolist()[:6]))
             return r
     # transform: fixed column scaling, linear, support preserving
     Y = np.asarray(case["Y"], dtype=np.float64)
